@@ -25,11 +25,64 @@ def expected_names(template, pool, assign):
     return [sorted(set(scopes.NAMES[val[id(b.binders[p])]] for p in visible)) for (eid, nm, visible) in b.uses]
 
 
+class KeywordSpec:
+    """token-class predicate behind the replaced range: SyntaxKind::is_keyword(k) <=> k is one of the keyword tokens"""
+
+    def make_interp(self):
+        from . import syn
+        it = syn.W.interp('syntax')
+        self.k = z3.BitVec('k', 16)
+        last = max(syn.KINDS.values())
+        it.solver.add(z3.ULE(self.k, last))
+        return it
+
+    def run_path(self, it):
+        from . import syn
+        from mirsym.values import IntV
+        fn = syn.W.find('syntax', 'is_keyword')
+        r = it.run_body(fn, [IntV(self.k, 16, 0)])
+        kws = [v for n, v in syn.KINDS.items() if n.endswith('_KW')]
+        ref = z3.Or([self.k == v for v in kws])
+        cond = (r.z() != ref) if r.sym() else (z3.Not(ref) if r.v else ref)
+        rr, m = it.check(cond)
+        rec = {'cls': 'ok', 'ok': True, 'sample': {'keywords': len(kws)}}
+        if rr == z3.sat:
+            kv = m.eval(self.k, model_completion=True).as_long()
+            rec = {'cls': 'violation', 'ok': False, 'why': ['C18: is_keyword(%s) is wrong: the identifier-under-cursor test of the completion range depends on it' % syn.INV.get(kv, kv)],
+                   'cex': {'kind': syn.INV.get(kv, kv)}}
+        return rec
+
+
+def keyword_factory():
+    return KeywordSpec()
+
+
+def keyword_part(chk, oracle, jobs):
+    from . import syn
+    syn.load('dev', log=chk.log, need_oracle=False)
+    try:
+        res, complete = explore.explore(keyword_factory, (), jobs=1)
+        chk.add_run('token-class predicate is_keyword over all %d kinds' % len(syn.KINDS), res, complete, {'kinds': len(syn.KINDS)})
+        for v in res.violations[:2]:
+            kw = v['cex']['kind'].replace('_KW', '').lower()
+            text = 'fn %sful() { 1 }\nfn main() { %s }\n' % (kw, kw)
+            off = text.rindex(kw) + len(kw)
+            r = oracle.ask('complete', json.dumps({'text': text, 'offsets': [off], 'ranges': True}))
+            items = (r.get('complete') or [None])[0] or []
+            hit = [i for i in items if i[0] == kw + 'ful']
+            okc = bool(hit) and (hit[0][1], hit[0][2]) != (off - len(kw), off)
+            chk.violation('completion-range', 'bounded', '%s; public API: completing after %r in %r offers %s (the typed prefix spans %d..%d)' % (v['why'][0], kw, text, hit[:1], off - len(kw), off),
+                          {'text': text, 'offset': off}, confirmed=okc)
+    finally:
+        syn.W.cleanup()
+
+
 def main(tier, seed):
     chk = Check('C18', tier, seed)
     jobs = int(os.environ.get('VERIF_JOBS', '16'))
-    scopes.load('dev', log=chk.log)
     oracle = native.Oracle(native.build('oracle-ide'))
+    keyword_part(chk, oracle, jobs)
+    scopes.load('dev', log=chk.log)
     try:
         for pool in BOUNDS[tier]['pool']:
             for t in scopes.TEMPLATES:
